@@ -123,6 +123,11 @@ def gen_sort():
     need(lit("for(SortElemsVectorType::size_type i = 0; i < m_sortElemsCount; i++)"), sc, "sortChildren: loop over the xsl:sort children in order")
     lang_cleared = re.search(lit("langString.clear()"), sc) is not None
     facts["lang_cleared_per_key"] = lang_cleared
+    # is langString one scratch string for all keys (declared before the loop) or one per key?
+    decl = need(lit("XalanDOMString& langString ="), sc, "sortChildren: declaration of langString")
+    loop = need(lit("for(SortElemsVectorType::size_type i = 0; i < m_sortElemsCount; i++)"), sc, "sortChildren: loop")
+    lang_shared = decl.start() < loop.start()
+    facts["lang_shared_scratch"] = lang_shared
     order = [x for x in re.findall(r"sort->get(Lang|DataType|Order|CaseOrder)AVT\(\)", sc)]
     if order != ["Lang", "DataType", "Order", "CaseOrder"]:
         raise AnchorError("sortChildren: AVTs are not evaluated in the order lang, data-type, order, case-order: %r" % order)
@@ -149,6 +154,8 @@ def gen_sort():
     out += "(* ElemForEach::sortChildren / NodeSortKey: is langString cleared per key; is it kept by pointer *)\n"
     out += "Definition lang_cleared_per_key : bool := %s.\n" % ("true" if lang_cleared else "false")
     out += "Definition lang_by_pointer : bool := %s.\n" % ("true" if lang_by_pointer else "false")
+    out += "(* langString is declared before the loop over the xsl:sort children (one string for all keys) *)\n"
+    out += "Definition lang_shared_scratch : bool := %s.\n" % ("true" if lang_shared else "false")
     out += "\n(* shapes recognised (anchors; the generator fails closed when one is not found):\n"
     out += "   compare: text/number branch, descending negates non-zero results only, ties recurse on key+1;\n"
     out += "   operator(): compare < 0; sort: std::stable_sort over (node, original position);\n"
